@@ -941,8 +941,13 @@ class Server:
             timeout=self.path_timeout,
             connection=connection,
         )
+        # Command lines are read as they arrive, but handled one at a time and
+        # in order: handlers of pipelined commands must not interleave on the
+        # session state (transfers still run aside, in `extra_workers`).
+        command = asyncio.create_task(self.greeting(connection, ""))
+        received = collections.deque()
         pending = {
-            asyncio.create_task(self.greeting(connection, "")),
+            command,
             asyncio.create_task(self.response_writer(stream, response_queue)),
             asyncio.create_task(self.parse_command(stream)),
         }
@@ -954,6 +959,8 @@ class Server:
                     return_when=asyncio.FIRST_COMPLETED,
                 )
                 connection.extra_workers -= done
+                if command in done:
+                    command = None
                 for task in done:
                     try:
                         result = task.result()
@@ -970,17 +977,18 @@ class Server:
                         pending.add(
                             asyncio.create_task(self.parse_command(stream)),
                         )
-                        cmd, rest = result
-                        f = self.commands_mapping.get(cmd)
-                        if f is not None:
-                            pending.add(
-                                asyncio.create_task(f(connection, rest)),
-                            )
-                            if cmd not in ("retr", "stor", "appe"):
-                                connection.restart_offset = 0
-                        else:
-                            message = f"{cmd!r} not implemented"
-                            connection.response("502", message)
+                        received.append(result)
+                while command is None and received:
+                    cmd, rest = received.popleft()
+                    f = self.commands_mapping.get(cmd)
+                    if f is not None:
+                        command = asyncio.create_task(f(connection, rest))
+                        pending.add(command)
+                        if cmd not in ("retr", "stor", "appe"):
+                            connection.restart_offset = 0
+                    else:
+                        message = f"{cmd!r} not implemented"
+                        connection.response("502", message)
         except asyncio.CancelledError:
             raise
         except Exception:
